@@ -50,6 +50,8 @@ func runC19(c *Ctx) {
 	c.Rule("C19.R4", "producing the persisted dump writes only freshly allocated memory", 5)
 	c.Rule("C19.R9", "stream filters never write into a route's per_filter_config (the map the dump marshals)", 20)
 	defer c19RouteConfigReadOnly(c)
+	c.Rule("C19.R11", "a pointer-receiver MarshalJSON is never on a type stored by value (encoding/json would skip it for unaddressable values)", 1)
+	defer c19MarshalersReachable(c)
 	c.Rule("C19.R10", "a dump is decoded into an empty model (no pre-filled target)", 2)
 	defer c19DecodeIntoZeroValue(c)
 	c.NotDecided = append(c.NotDecided, "value-level equivalence of load(dump(load(x))) and load(x): defaults, omitempty vs explicit zero, duration/byte-size formatting (mosn.io/api)", "the shipped sample configurations (needs running the loader)", "per-filter free-form config maps")
